@@ -262,8 +262,14 @@ theorem step_good (s : PState) (t : Tok) (ht : TokOk t) (h : good s.st = true) :
     simp only [step]
     split
     · simp [IsEscape]
-    · exact oprStep_good s n ht h
-  | isect => simp only [step]; exact oprStep_good s " " (by simp [opNames]) h
+    · split
+      · simp [IsEscape]
+      · exact oprStep_good s n ht h
+  | isect =>
+    simp only [step]
+    split
+    · simp [IsEscape]
+    · exact oprStep_good s " " (by simp [opNames]) h
   | sep =>
     simp only [step]
     have hg : good (if s.prev = .sep ∨ s.prev = .lparen then pushOperand s (.operand .empty "") else s).st = true := by
